@@ -23,6 +23,7 @@ pub fn spec_for(prop: &str) -> Option<Spec> {
         "C02" => Spec { gen: crate::comb::generate, quick_runs: 40_000, thorough_runs: 2_000_000 },
         "C03" => Spec { gen: gen_c03, quick_runs: 40_000, thorough_runs: 2_000_000 },
         "C15" => Spec { gen: crate::settable::generate, quick_runs: 30_000, thorough_runs: 1_500_000 },
+        "C17" => Spec { gen: crate::refs::generate, quick_runs: 20_000, thorough_runs: 1_000_000 },
         _ => return None,
     })
 }
@@ -34,6 +35,7 @@ pub fn execute(plan: &Plan, ctx: &mut Ctx) {
         "comb" => crate::comb::execute(plan, ctx),
         "datum" => crate::datumop::execute(plan, ctx),
         "settable" => crate::settable::execute(plan, ctx),
+        "refs" => crate::refs::execute(plan, ctx),
         other => ctx.violate("HARNESS", "unknown_world", other, format!("unknown world {:?}", other)),
     }
 }
